@@ -1,6 +1,6 @@
 (* C06 — Integrals and means are cell sums times cell measure, consistent across axes.
    K is an arbitrary field. Statements only. *)
-From DF Require Import Prelude FieldK NDArray Integrate C06_proofs.
+From DF Require Import Prelude FieldK NDArray Integrate C06_proofs C06_means.
 
 (* the integral over all directions is the sum of the cell values times the cell volume *)
 Theorem C06_total : forall (K : FOps) sh nvdim dV (f : idx -> K) c, (c < nvdim)%nat ->
@@ -75,6 +75,31 @@ Theorem C06_linear_directional : forall (K : FOps), FLaws K -> forall sh ax a b 
   = fadd (fmul a (sum_axis K sh ax f i)) (fmul b (sum_axis K sh ax g i)).
 Proof. exact sum_axis_lin. Qed.
 Print Assumptions C06_linear_directional.
+
+(* the mean over ONE direction times the integrated extent is the directional integral ... *)
+Theorem C06_mean_directional_times_extent : forall (K : FOps), FLaws K -> forall sh nvdim ax h (f : idx -> K) i,
+  fnat K (nth ax sh 0%nat) <> f0 K ->
+  fmul (mean_dir K sh nvdim ax f i) (fmul (fnat K (nth ax sh 0%nat)) h) = integrate_dir K sh nvdim ax h f i.
+Proof. exact mean_dir_times_extent. Qed.
+Print Assumptions C06_mean_directional_times_extent.
+
+(* ... and the mean of the directional means over the remaining directions is the mean over all directions
+   (means over several directions are obtained by repeating this step) *)
+Theorem C06_mean_of_directional_means : forall (K : FOps), FLaws K -> forall sh ax (f : idx -> K),
+  (ax < length sh)%nat -> fnat K (nprod sh) <> f0 K ->
+  fdiv (total K (remove_nth ax sh) (fun i => fdiv (sum_axis K sh ax f i) (fnat K (nth ax sh 0%nat))))
+       (fnat K (nprod (remove_nth ax sh)))
+  = fdiv (total K sh f) (fnat K (nprod sh)).
+Proof. exact mean_of_directional_means. Qed.
+Print Assumptions C06_mean_of_directional_means.
+
+(* the cumulative integral is linear in the line *)
+Theorem C06_linear_cumulative : forall (K : FOps), FLaws K -> forall h a b (u w : list K),
+  length u = length w ->
+  cum_line K h (map2 (fun x y => fadd (fmul a x) (fmul b y)) u w)
+  = map2 (fun x y => fadd (fmul a x) (fmul b y)) (cum_line K h u) (cum_line K h w).
+Proof. exact cum_line_lin. Qed.
+Print Assumptions C06_linear_cumulative.
 
 (* none of the definitions mentions the position of the mesh: integrate_all / integrate_dir /
    integrate_cum / mean_* take only shape, cell lengths and values (translation invariance is
